@@ -10,7 +10,7 @@ import os
 import subprocess
 import time
 
-from .. import vlib, session, pathlocks, connloop
+from .. import vlib, session, pathlocks, connloop, lifetime
 from ..vlib import Inconclusive
 
 RULE = ("(a) seeded random workloads: 2..64 client goroutines over 1..8 connections (walk, mkdir, create, write, read incl. "
@@ -19,7 +19,9 @@ RULE = ("(a) seeded random workloads: 2..64 client goroutines over 1..8 connecti
         "succeed, and every Rread must carry the bytes produced for it; (b) isolation: k Session.tla histories (all request "
         "kinds, bounded-exhaustive depth 3 and simulated depth 12) replayed concurrently with disjoint fids/names, several "
         "clients per connection, each compared step by step with its own history; distinct = distinct (workload configuration, "
-        "seed) and isolation rounds")
+        "seed) and isolation rounds; (c) schedules: every stimulus script of the Lifetime.tla scenarios (renames racing with clunks, "
+        "in-flight requests and the teardown of another connection, backend calls held at gates): every request the "
+        "specification answers must be answered (TLC: deadlock check of the specification with all deviations repaired)")
 
 
 def tlc_part(s, tier):
@@ -144,6 +146,9 @@ def run(tier, seed):
         judged = pathlocks.judge(s, traces, fixed)
         nondev = [j for j in judged if not j["dev"]]
         iso, sample = isolation(s, tier, seed, bindir, verdict)
+        life = lifetime.part("C16", tier, seed, verdict)
+        states += life["states"]
+        trans += life["transitions"]
         race_info = None
         if tier == "thorough":
             rb = vlib.build_harness(race=True)
@@ -151,13 +156,15 @@ def run(tier, seed):
             iso_r, _ = isolation(s, "quick", seed + 7, rb, verdict, race=True)
             race_info = {"workloads": wl_r, "isolation": iso_r}
     cov = {"states": states, "transitions": trans,
-           "traces_validated_against_impl": wl["runs"] + iso["agreed_clients"],
+           "traces_validated_against_impl": wl["runs"] + iso["agreed_clients"] + life["validated"],
            "samples": [{"workload_configs": cfgs[:3]}, {"isolation_round": sample}],
-           "evaluations": wl["runs"] + iso["rounds"], "distinct_nontrivial": wl["runs"] + iso["rounds"], "rule": RULE,
+           "evaluations": wl["runs"] + iso["rounds"] + life["evaluations"],
+           "distinct_nontrivial": wl["runs"] + iso["rounds"] + life["evaluations"], "rule": RULE,
+           "lifetime": life["cov"],
            "workload": wl, "isolation": iso, "backend_log_events_validated_by_TLC": wl["events"],
            "contract_conflicts_in_workload_logs": {"known_deviations": len(judged) - len(nondev), "other (owned by C07)": len(nondev)},
            "race_detector": race_info or "thorough tier only", "tlc_runs": runs, "exhaustive": False,
-           "checker_cmd": "tlc PathLocks/ConnLoop/Trace_Overlap + harness/cmd/workload + harness/cmd/isoreplay"}
+           "checker_cmd": "tlc PathLocks/ConnLoop/Trace_Overlap + harness/cmd/workload + harness/cmd/isoreplay; " + life["checker_cmd"]}
     vlib.write_evidence("C16", tier, seed, "model_checking", cov, [
         "progress of the lock protocol and of the connection loop is model-checked under fairness; on the real scheduler progress is a watchdog observation (10 s per request)",
         "data-race freedom is decided by the Go race detector on these workloads (thorough tier), not by TLA+",
@@ -167,5 +174,8 @@ def run(tier, seed):
 
 
 def replay(path):
+    rep = json.load(open(path))
+    if isinstance(rep, dict) and rep.get("kind") == "lifetime":
+        return lifetime.replay_one(rep)
     print("re-run ./check C16 with the seed recorded in " + path)
     return 2
